@@ -175,7 +175,7 @@ USERDB_DOCS = ['Some \\emph{important} text.', '\\emph', '\\textbf\\emph{x}', '$
                '\\begin{center}c \\textit{i}\\end{center}~\\alpha\\beta x', '\\textbf', '\\begin{center}', '~~', '\\emph{\\textbf{\\textit{}}}']
 
 def to_line(c):
-    if c.get('deep') or c.get('userdb'):
+    if c.get('deep') or c.get('userdb') or c.get('legacy'):
         return None
     if c['o'].get('fill') is not None:
         return None
@@ -214,7 +214,8 @@ def user_textdb():
                     latex2text.MacroTextSpec('textit', simplify_repl=inst.__call__)],
             environments=[latex2text.EnvironmentTextSpec('center', simplify_repl=inst),
                           latex2text.EnvironmentTextSpec('quote', simplify_repl=functools.partial(_repl_fn, 'quote'))],
-            specials=[latex2text.SpecialsTextSpec('~', simplify_repl=functools.partial(_repl_fn, 'tilde'))])
+            specials=[latex2text.SpecialsTextSpec('~', simplify_repl=functools.partial(_repl_fn, 'tilde')),
+                      latex2text.SpecialsTextSpec('--'), latex2text.SpecialsTextSpec('``', simplify_repl='')])    # constructor default: no replacement
         _USERDB.append(db)
     return _USERDB[0]
 
@@ -226,6 +227,15 @@ def run_impl(c):
         kw = opts_kwargs(o)
         if c.get('userdb'):
             kw['latex_context'] = user_textdb()
+        if c.get('legacy'):
+            # the obsolete (still documented) dictionary options, given alone or together
+            from pylatexenc import latex2text
+            import warnings
+            warnings.simplefilter('ignore')
+            if c['legacy'] in ('macro', 'both'):
+                kw['macro_dict'] = {'emph': latex2text.MacroTextSpec('emph', discard=False)}
+            if c['legacy'] in ('env', 'both'):
+                kw['env_dict'] = {'center': latex2text.EnvironmentTextSpec('center', discard=False)}
         l2t = LatexNodes2Text(**kw)
         r = l2t.latex_to_text(c['s'])
         if not isinstance(r, str):
@@ -303,8 +313,12 @@ def cases(tier, rng):
     for s in USERDB_DOCS:
         for o in sweep[::3]:
             yield {'s': s, 'o': o, 'userdb': True}
+    for s in USERDB_DOCS + ['a--b``c', '``', '--']:
+        for leg in ('macro', 'env', 'both'):
+            yield {'s': s, 'o': dict(DEFAULT_OPTS), 'legacy': leg}
+        yield {'s': s, 'o': dict(DEFAULT_OPTS), 'userdb': True}
     for _ in range(300 if quick else 6000):
-        s = gen.soup(rng, gen.ATOMS_DEFAULT + ['\\emph', '\\textbf', '\\textit', '\\alpha', '\\beta', '\\begin{center}', '\\end{center}', '\\begin{quote}', '\\end{quote}', '~'], 7)
+        s = gen.soup(rng, gen.ATOMS_DEFAULT + ['--', '``', '\\emph', '\\textbf', '\\textit', '\\alpha', '\\beta', '\\begin{center}', '\\end{center}', '\\begin{quote}', '\\end{quote}', '~'], 7)
         yield {'s': s, 'o': rand_opts(rng), 'userdb': True}
     # (a) bounded-exhaustive atom strings
     k_core = 3 if quick else 4
